@@ -53,10 +53,6 @@ Theorem C15_close_reaches_release :
 Proof. exact api_call_progress. Qed.
 Print Assumptions C15_close_reaches_release.
 
-(* NOT PROVED: the full frame grammar over sequential API call sequences (at most one complete
-   per id, nothing after the close frame) -- checked on every run by the oracle over the frames
-   the real client wrote, and by the per-step correspondence of [frames]. *)
-
 (* "subscribe frames with fresh unique ids": in every reachable state of every schedule the
    subscribe frames written so far carry pairwise distinct ids, each the id of a registered
    subscription *)
@@ -66,3 +62,31 @@ Theorem C15_subscribe_ids_are_fresh :
   NoDup (sub_ids (frames s)) /\ forall i, In i (sub_ids (frames s)) -> (i < List.length (subs s))%nat.
 Proof. exact subscribe_ids_are_fresh. Qed.
 Print Assumptions C15_subscribe_ids_are_fresh.
+
+(* The conversation grammar.  For every SEQUENCE of API calls (a call starts when the previous
+   ones have returned; only ids that Subscribe returned are unsubscribed; nothing is called after
+   Close), every interleaving of it with the reader, the server and the application's receives,
+   and every choice of failing connection operations: the frames written so far (newest first)
+   have pairwise distinct subscribe ids, at most one complete per id, each complete after the
+   subscribe frame of its id, and nothing after the close frame... *)
+From Verif Require Import Rt.WsSpec Proofs.WsGrammar.
+Theorem C15_conversation_grammar :
+  forall ls, sequential ls = true -> grammar (frames (run ls)).
+Proof. exact conversation_grammar. Qed.
+Print Assumptions C15_conversation_grammar.
+
+(* ... equivalently, the left-to-right check a graphql-transport-ws server makes on the frames
+   after connection_init (oldest first) accepts them *)
+Theorem C15_conversation_accepted :
+  forall ls, sequential ls = true -> conv_ok [] [] (rev (frames (run ls))) = true.
+Proof. exact conversation_accepted. Qed.
+Print Assumptions C15_conversation_accepted.
+
+(* non-vacuity: a sequential schedule in which an Unsubscribe write fails, the server completes
+   the other subscription, and Close writes the one missing complete frame and the close frame *)
+Theorem C15_conversation_witness :
+  sequential ls0 = true
+  /\ frames (run ls0) = [WClose; WComplete 0; WSubscribe 1; WSubscribe 0]
+  /\ calls (run ls0) = [ADone true; ADone true; ADone false; ADone true]
+  /\ conv_ok [] [] (rev (frames (run ls0))) = true.
+Proof. exact conversation_nonvacuous. Qed.
